@@ -53,6 +53,8 @@ def array2slice(arr):
         If slice conversion is possible, return the slice, else return None.
     """
     if arr.ndim == 1 and arr.dtype.kind in ('i', 'u'):
+        if arr.dtype.kind == 'u':
+            arr = arr.astype(int)  # differences of unsigned ints wrap around for negative strides
         if arr.size > 1:  # see if 1D array will convert to slice
             if arr[0] < 0 or arr[1] < 0:
                 return None
